@@ -219,7 +219,7 @@ def gen_cases(ck):
                                   "entry": entry, "new": new, "overwrite": "old" in pre, "validation": True,
                                   "stream": "matrix"})
     # seeded random structured cases
-    nrand = 14 if ck.quick else 260
+    nrand = 12 if ck.quick else 200
     for i in range(nrand):
         entry = rng.choice(["write_arrays", "write_arrays", "write_dicts", "api_nx", "api_rx", "api_sg"])
         if entry == "api_sg":
@@ -242,7 +242,7 @@ def gen_cases(ck):
     # invalid inputs, validation on (+ faults during the clean-up for a subset)
     for bad in INVALID:
         for fmt in (2, 3):
-            for kind in (("mem", "path") if ck.quick else ("mem", "local", "path", "str")):
+            for kind in (("mem", "path") if ck.quick else ("mem", "local", "path")):
                 for pre in ("foreign", "old+foreign", "empty"):
                     if ck.quick and pre == "empty" and kind != "mem":
                         continue
